@@ -51,6 +51,7 @@ package pullapi
 //@   ensures [C04:store_error_never_success] storeMutations == old(storeMutations) + 1 && lastStoreErr != nil ==> result != nil
 //@   ensures [C04:success_means_store_success_or_remembered_duplicate] result == nil ==> (storeMutations == old(storeMutations) + 1 && lastStoreErr == nil && lastStoreLease == trim(leaseID) && lastStoreOp == "ack") || (storeMutations == old(storeMutations) && old(leaseOpKey(leaseID, "ack") in remembered))
 //@   ensures [C04:at_most_one_store_call] storeMutations == old(storeMutations) || storeMutations == old(storeMutations) + 1
+//@   ensures [C04:an_operation_error_carries_an_error_status] result != nil ==> result.StatusCode >= 400
 
 //@ func (*Server).NackSingle
 //@   requires s != nil
@@ -60,12 +61,14 @@ package pullapi
 //@   ensures [C04:store_error_never_success] storeMutations == old(storeMutations) + 1 && lastStoreErr != nil ==> result != nil
 //@   ensures [C04:success_means_store_success_or_remembered_duplicate] result == nil ==> (storeMutations == old(storeMutations) + 1 && lastStoreErr == nil && lastStoreLease == trim(leaseID) && lastStoreOp == ite(dead, "dead", "nack")) || (storeMutations == old(storeMutations) && old(leaseOpKey(leaseID, "nack") in remembered))
 //@   ensures [C04:at_most_one_store_call] storeMutations == old(storeMutations) || storeMutations == old(storeMutations) + 1
+//@   ensures [C04:an_operation_error_carries_an_error_status] result != nil ==> result.StatusCode >= 400
 
 //@ func (*Server).Extend
 //@   requires s != nil
 //@   modifies storeMutations, lastStoreErr, lastStoreLease, lastStoreOp
 //@   ensures [C04:conflict_is_409] storeMutations == old(storeMutations) + 1 && leaseConflict(lastStoreErr) ==> result != nil && result.StatusCode == 409
 //@   ensures [C04:success_means_store_success] result == nil ==> storeMutations == old(storeMutations) + 1 && lastStoreErr == nil && lastStoreLease == trim(leaseID) && lastStoreOp == "extend"
+//@   ensures [C04:an_operation_error_carries_an_error_status] result != nil ==> result.StatusCode >= 400
 
 // ---- C11 (pull layer): nothing happens before authorisation ----
 
@@ -157,6 +160,7 @@ package pullapi
 //@   calls rememberCompletedLease requires [C04:remember_only_leases_the_store_settled] arg2 == "ack" && ((batchOps == old(batchOps) + 1 && lastBatchOpErr == nil && inIDs(lastSuccessful, arg1)) || (batchOps == old(batchOps) && storeMutations > old(storeMutations) && lastStoreErr == nil && lastStoreLease == arg1 && lastStoreOp == "ack"))
 //@   loop 2 invariant [batch_facts_kept] batchOps == old(batchOps) + 1 && lastBatchOpErr == nil && lastSuccessful == pre(lastSuccessful)
 //@   loop 3 invariant [single_ops_only] batchOps == old(batchOps) && storeMutations >= old(storeMutations)
+//@   ensures [C04:an_operation_error_carries_an_error_status] result1 != nil ==> result1.StatusCode >= 400
 //@   ensures [C04:store_failure_is_500] result1 != nil ==> result1.StatusCode == 500 && result0.Succeeded == 0
 //@   ensures [C04:batch_path_reports_the_stores_conflicts] result1 == nil && batchOps == old(batchOps) + 1 ==> lastBatchOpErr == nil
 
@@ -169,4 +173,43 @@ package pullapi
 //@   calls queue.LeaseBatchStore.NackBatch requires [C04:nack_with_the_requested_delay] !dead && callee_delay == delay && callee_leaseIDs == pendingLeaseIDs
 //@   loop 2 invariant [batch_facts_kept] batchOps == old(batchOps) + 1 && lastBatchOpErr == nil && lastSuccessful == pre(lastSuccessful)
 //@   loop 3 invariant [single_ops_only] batchOps == old(batchOps) && storeMutations >= old(storeMutations)
+//@   ensures [C04:an_operation_error_carries_an_error_status] result1 != nil ==> result1.StatusCode >= 400
 //@   ensures [C04:store_failure_is_500] result1 != nil ==> result1.StatusCode == 500 && result0.Succeeded == 0
+
+// ---- C04 (pull HTTP): the status the consumer sees is the outcome of the store operation ----
+
+//@ extern encoding/json.NewEncoder(w) (enc)
+//@   ensures enc != nil
+//@ extern encoding/json.(*Encoder).Encode(enc, v) (err)
+//@   modifies respStatus
+//@   ensures respStatus == ite(old(respStatus) == 0, 200, old(respStatus))
+//@ func writeJSON
+//@   requires w != nil && status >= 100
+//@   modifies respStatus, maps(http.Header)
+//@   ensures [C04:status_written] respStatus == ite(old(respStatus) == 0, status, old(respStatus))
+//@ func readLeaseRequest
+//@   trusted
+//@   modifies respStatus, maps(http.Header), leaseRequest.*
+//@   ensures !result1 ==> respStatus != 0 && respStatus != 204 && respStatus != 200
+//@   ensures result1 ==> respStatus == old(respStatus)
+//@ func normalizeLeaseIDs
+//@   trusted
+//@   ensures result2 == "" && !result1 ==> len(result0) == 1
+//@ func mapLeaseBatchConflicts
+//@   trusted
+//@   ensures len(result) == len(conflicts)
+
+//@ func (*Server).handleAck
+//@   requires s != nil && r != nil && w != nil && respStatus == 0
+//@   modifies *
+//@   ensures [C04:204_only_after_the_store_acked_or_a_remembered_duplicate] respStatus == 204 ==> batchOps == old(batchOps) && ((storeMutations == old(storeMutations) + 1 && lastStoreErr == nil && lastStoreOp == "ack") || storeMutations == old(storeMutations))
+//@   ensures [C04:single_conflict_is_409] !local(isBatch) && storeMutations == old(storeMutations) + 1 && leaseConflict(lastStoreErr) ==> respStatus == 409
+//@   ensures [C04:single_store_error_is_never_a_success] !local(isBatch) && storeMutations == old(storeMutations) + 1 && lastStoreErr != nil ==> respStatus >= 400
+//@   ensures [C04:always_answers] respStatus != 0
+
+//@ func (*Server).handleExtend
+//@   requires s != nil && r != nil && w != nil && respStatus == 0
+//@   modifies *
+//@   ensures [C04:204_only_after_the_store_extended] respStatus == 204 ==> storeMutations == old(storeMutations) + 1 && lastStoreErr == nil && lastStoreOp == "extend"
+//@   ensures [C04:conflict_is_409] storeMutations == old(storeMutations) + 1 && leaseConflict(lastStoreErr) ==> respStatus == 409
+//@   ensures [C04:always_answers] respStatus != 0
